@@ -4,7 +4,7 @@ B=${1:-300}; S=${2:-31}; shift 2
 IDS=${@:-C01 C02 C03 C04 C05 C06 C07 C10 C11 C12 C17 C18 C19}
 cd "$(dirname "$0")/.."
 for c in $IDS; do
-  out=$(timeout $((B*3+600)) ./check $c --budget $B --seed $S --no-minimise 2>&1)
+  out=$(timeout $((B*3+600)) ./check $c --tier ${TIER:-quick} --budget $B --seed $S --no-minimise 2>&1)
   rc=$?
   echo "== $c rc=$rc $(echo "$out" | grep -E "^$c (quick|thorough):" | cut -c1-160)"
   echo "$out" | grep -E "^  signature|HARNESS-ERROR|KNOWN-FINDING" | cut -c1-260
